@@ -115,6 +115,20 @@ func genC09(g *Gen) any {
 	return sc
 }
 
+func genC08LiveReplay(g *Gen) any {
+	sc := &C09Scenario{Seed: g.Rng.Uint64(), Partial: g.Bool(0.5)}
+	for i := g.Int(1, 3); i > 0; i-- {
+		p := genC09Peer(g, "cloak-replay")
+		p.Mode = "stay"
+		sc.Peers = append(sc.Peers, p)
+	}
+	if g.Bool(0.3) {
+		sc.Peers = append(sc.Peers, genC09Peer(g, c09Kinds[g.Rng.IntN(len(c09Kinds))]))
+	}
+	c09Stagger(g, sc, 0.3)
+	return sc
+}
+
 // every first byte value, each as its own run (complete)
 func genC09FirstByte(g *Gen) any {
 	p := genC09Peer(g, "firstbyte")
@@ -131,6 +145,10 @@ func genC09FirstByte(g *Gen) any {
 type c09Genuine struct {
 	hello []byte
 	hold  bool
+	// abort: the genuine client's connection is reset the moment the server has
+	// taken the whole hello - the reply cannot be delivered. The hello has been
+	// presented all the same: a copy of it stays a replay.
+	abort bool
 }
 
 func c09Stream(w *SrvWorld, p C09Peer, extraClients *[]c09Genuine) (s []byte, first int) {
@@ -264,7 +282,7 @@ func c09Stream(w *SrvWorld, p C09Peer, extraClients *[]c09Genuine) (s []byte, fi
 	case "cloak-replay":
 		h := hello(nil)
 		// the genuine packet is presented first by a legitimate client (see runC09), this peer replays it
-		*extraClients = append(*extraClients, c09Genuine{h, false})
+		*extraClients = append(*extraClients, c09Genuine{hello: h, abort: p.Arg%3 == 0})
 		s, first = append([]byte(nil), h...), len(h)
 	case "cloak-unauth-uid":
 		// a UID that is on no list: random, or one of the values a blank or
@@ -285,7 +303,7 @@ func c09Stream(w *SrvWorld, p C09Peer, extraClients *[]c09Genuine) (s []byte, fi
 	case "cloak-bad-method-live":
 		// the same UID and session id as a session that is live right now, but a
 		// proxy method the server does not serve: still relayed, never attached
-		*extraClients = append(*extraClients, c09Genuine{hello(nil), true})
+		*extraClients = append(*extraClients, c09Genuine{hello: hello(nil), hold: true})
 		s = hello(func(c *ClientParams) { c.Method = "nosuchproxy" })
 		first = len(s)
 	case "http-get":
@@ -405,6 +423,19 @@ func runC09(c *Ctx, scAny any) {
 				return
 			}
 			dialOrder = append(dialOrder, nil)
+			if h.abort {
+				l := gc.(*simnet.Conn).Link()
+				l.Script = append(l.Script, simnet.ScriptedFault{Dir: 0, AtConsumed: int64(len(h.hello)), Kind: "reset"})
+				gc.Write(h.hello)
+				gc.SetReadDeadline(time.Now().Add(2 * time.Second))
+				gc.Read(make([]byte, 16))
+				gc.Close()
+				// (time passes in these worlds only when nothing else can run: after this
+				// the server has done all it will ever do with that connection)
+				Sleep(time.Second)
+				c.Probe("genuine_hello_reply_lost")
+				return
+			}
 			gc.Write(h.hello)
 			b := make([]byte, 2048)
 			gc.SetReadDeadline(time.Now().Add(2 * time.Second))
@@ -670,5 +701,10 @@ func init() {
 	// transport's envelope) is answered with the server's own handshake reply
 	// c07-unauth-peers under C09: valid hellos that are refused late (unknown
 	// user or method), next to bystanders, with a slow hand-over to the target
-	plans["C09"] = []string{"c09-firstbyte", "c09-peers", "c08-history", "c07-unauth-peers"}
+	// c08-live-replay (C08, C09): captured hellos replayed to the running server -
+	// through the dispatcher, not AuthFirstPacket alone - after the genuine
+	// presentation completed or lost its reply to a reset
+	register(&Family{Name: "c08-live-replay", Count: func(tier string) int { return map[string]int{"quick": 500, "thorough": 20000}[tier] },
+		Gen: genC08LiveReplay, New: newSc, Run: runC09, Policy: pol, VirtCap: 5 * time.Minute})
+	plans["C09"] = []string{"c09-firstbyte", "c09-peers", "c08-history", "c07-unauth-peers", "c08-live-replay"}
 }
